@@ -27,13 +27,43 @@ package tchannel
 // A connection's exchange sets, logger and frame pool are fixed at construction.
 //@ structinv (c *Connection) established newConnection : c.inbound != nil && c.outbound != nil && c.log != nil
 
+// A connection's stats reporter, base context and clock are fixed at
+// construction; its health-check handles are set together, by callOnActive.
+// (ASSUMED of the embedding program: a ConnContext hook returns a context, and
+// the channel that creates the connection has a stats reporter -- NewChannel
+// installs NullStatsReporter when none is configured.)
+//@ extern context.WithCancel(parent context.Context) (ctx context.Context, cancel context.CancelFunc)
+//@   ensures ctx != nil && cancel != nil
+//@ funcfield Channel.connContext(ctx context.Context, conn net.Conn) (r context.Context)
+//@   modifies nothing
+//@   ensures r != nil
+// (ASSUMED at the entry points that create connections -- Connect, the accept
+// loop: NewChannel installs a default for both, and neither is reassigned.)
+//@ func (ch *Channel) newConnection(baseCtx context.Context, conn net.Conn, initialID uint32, outboundHP string, remotePeer PeerInfo, remotePeerAddress peerAddressComponents, events connectionEvents) (c *Connection)
+//@   requires ch.statsReporter != nil && ch.connContext != nil
+//@   property C13
+//@ func (ch *Channel) inboundHandshake(ctx context.Context, c net.Conn, events connectionEvents) (conn *Connection, err error)
+//@   requires ch.statsReporter != nil && ch.connContext != nil
+//@   property C13
+//@ func (ch *Channel) outboundHandshake(ctx context.Context, c net.Conn, outboundHP string, events connectionEvents) (conn *Connection, err error)
+//@   requires ch.statsReporter != nil && ch.connContext != nil
+//@   property C13
+//@ func (c *Connection) callOnActive()
+//@   label health-check-handles-are-set-together
+//@   ensures c.healthCheckDone != nil ==> c.healthCheckCtx != nil && c.healthCheckQuit != nil
+//@   property C19
+//@ structinv (c *Connection) established newConnection : c.statsReporter != nil
+//@ structinv (c *Connection) established newConnection : c.baseContext != nil
+//@ structinv (c *Connection) established newConnection : c.timeNow != nil
+//@ structinv (c *Connection) established newConnection : c.healthCheckDone != nil ==> c.healthCheckCtx != nil && c.healthCheckQuit != nil
+
 // A relayer's tables, timer pool, connection and logger are fixed by NewRelayer.
 //@ structinv (r *Relayer) established NewRelayer : r.inbound != nil && r.outbound != nil && r.timeouts != nil && r.conn != nil && r.logger != nil
 //@ structinv (ri *relayItems) established NewRelayer helpers newRelayItems : ri.items != nil
 //@ func NewRelayer(ch *Channel, conn *Connection) (r *Relayer)
 //@   nosafety
 //@   requires conn.log != nil
-//@   modifies all
+//@   modifies allbut Connection
 //@   ensures r != nil && r.conn == conn
 //@   property C08 C09
 
